@@ -72,7 +72,7 @@ def tf_jobs(ck, beh):
     o = {"so": c["so"], "SF": c["SF"], "PF": c["PF"], "Start": c["Start"], "graft": g,
          "graft_decay": 0.75 if g != "SGD" else 0.0, "decay": [1.0, 0.5][(i // 3) % 2],
          "momentum_decay": 0.0, "block_size": 2 if (c["so"] == "shampoo" and i % 2) else 1024,
-         "rank": 2, "lr": 1.0, "merge_dims": 3, "graft_eps": 1e-10}
+         "rank": 2, "lr": 1.0, "merge_dims": 3, "graft_eps": 1e-10, "ekfac": c.get("ekfac", False)}
     if c["skipped"]:
       shapes, target = [(3, 3), (5,)], 1
     else:
